@@ -222,8 +222,10 @@ fn validate_type(env: &TypeEnv, seen: &mut BTreeMap<String, bool>, t: &Type) -> 
         TypeInner::Func(func) => validate_func(env, seen, func),
         TypeInner::Service(methods) => {
             for (_, ty) in methods.iter() {
-                let func = env.as_func(ty)?;
-                validate_func(env, seen, func)?;
+                env.as_func(ty)?;
+                // Go through the method's own type rather than the function it resolves to: a name is then
+                // visited once, which is what ends the walk on `type f = func (service { m : f }) -> ()`.
+                validate_type(env, seen, ty)?;
             }
             Ok(())
         }
